@@ -1,6 +1,7 @@
 SPECIFICATION TSpec
 INVARIANT PhaseOk
 INVARIANT ExecutedOnce
+INVARIANT ProcessedRecorded
 INVARIANT DupRejected
 POSTCONDITION TraceAccepted
 CHECK_DEADLOCK FALSE
